@@ -839,6 +839,10 @@ class Node:
         instance are removed as well.
         """
         if with_clones:
+            if keep_children:
+                # Check all clones first, so a refused call does not remove some
+                for c in self.get_clones(add_self=True):
+                    c._check_keep_children(with_clones=True)
             for c in self.get_clones():  # Excluding self
                 # A clone may already be gone, if it was nested below another one
                 if c._tree is not None:
@@ -849,12 +853,7 @@ class Node:
 
         if keep_children:
             # Check the unique constraint for all children before moving any
-            for c in self.children:
-                for n in self._parent.children:
-                    if n is not self and n._data_id == c._data_id:
-                        raise UniqueConstraintError(
-                            "Node.data already exists in parent"
-                        )
+            self._check_keep_children()
             # Splice the children into the parent's list, directly before self
             # (We cannot use `move_to()`, because typed nodes don't support it)
             pc = self._parent._children
@@ -872,6 +871,32 @@ class Node:
             pc = self._parent._children = None
 
         self._tree._unregister(self)
+
+    def _check_keep_children(self, *, with_clones=False) -> None:
+        """Raise UniqueConstraintError if `remove(keep_children=True)` would
+        place two nodes with the same data_id below this node's parent.
+
+        If `with_clones` is true, clones of this node are about to be removed
+        as well, so nested clones pass their children on.
+        """
+        data_id = self._data_id
+        if with_clones and self._parent._data_id == data_id:
+            return  # nested below a clone: checked as part of that one
+
+        def _promoted(node: Node) -> Iterator[Node]:
+            for c in node.children:
+                if with_clones and c._data_id == data_id:
+                    yield from _promoted(c)
+                else:
+                    yield c
+
+        new_siblings = [n for n in self._parent.children if n is not self]
+        new_siblings.extend(_promoted(self))
+        for i, n in enumerate(new_siblings):
+            for other in new_siblings[:i]:
+                if other._data_id == n._data_id:
+                    raise UniqueConstraintError("Node.data already exists in parent")
+        return
 
     def remove_children(self) -> None:
         """Remove all children of this node, making it a leaf node."""
